@@ -115,6 +115,8 @@ macro_rules! d50_group {
             ("Hwb<ProPhotoRgb>", Hwb<encoding::ProPhotoRgb, $T>, K::Hwb(R::PROPHOTO)),
             ("LinProPhotoRgb", Rgb<Linear<encoding::ProPhotoRgb>, $T>, K::Rgb(R::LIN_PROPHOTO)),
             ("Hsv<LinProPhotoRgb>", Hsv<Linear<encoding::ProPhotoRgb>, $T>, K::Hsv(R::LIN_PROPHOTO)),
+            ("Luma<ProPhotoRgb>", Luma<encoding::ProPhotoRgb, $T>, K::Luma(R::PROPHOTO)),
+            ("LinLuma<D50>", Luma<Linear<wp::D50>, $T>, K::Luma(R::LIN_PROPHOTO)),
         ]);
     };
 }
@@ -136,6 +138,8 @@ macro_rules! dci_group {
             ("LinDciP3", Rgb<Linear<encoding::DciP3>, $T>, K::Rgb(R::LIN_DCI_P3)),
             ("DciP3Plus", Rgb<encoding::DciP3Plus<encoding::P3Gamma>, $T>, K::Rgb(R::DCI_P3_PLUS)),
             ("Hsv<DciP3Plus>", Hsv<encoding::DciP3Plus<encoding::P3Gamma>, $T>, K::Hsv(R::DCI_P3_PLUS)),
+            ("Luma<DciP3>", Luma<encoding::DciP3, $T>, K::Luma(R::DCI_P3)),
+            ("LinLuma<DciP3>", Luma<Linear<encoding::DciP3>, $T>, K::Luma(R::LIN_DCI_P3)),
         ]);
     };
 }
@@ -151,6 +155,7 @@ macro_rules! cie_group {
             ("Luv", Luv<$W, $T>, K::Luv($w)),
             ("Lchuv", Lchuv<$W, $T>, K::Lchuv($w)),
             ("LmsVonKries", VonKriesLms<$W, $T>, K::LmsVonKries($w)),
+            ("LinLuma", Luma<Linear<$W>, $T>, K::Luma(R::lin_luma($w))),
         ]);
     };
 }
